@@ -884,19 +884,19 @@ class DataType(object):
         split_data_type = self.type.split(':')
         normalized = set()
         for value in values:
-            if not isinstance(value, IP):
-                try:
+            try:
+                if not isinstance(value, IP):
                     value = IP(value)
                     if split_data_type[1] == 'v4' and value.version() != 4:
                         raise ValueError
                     if split_data_type[1] == 'v6' and value.version() != 6:
                         raise ValueError
-                except (ValueError, TypeError):
-                    raise EDXMLEventValidationError(
-                        'Invalid IP%s address in list: "%s"' %
-                        (split_data_type[1], '","'.join([repr(value) for value in values]))
-                    )
-            normalized.add(value.strFullsize())
+                normalized.add(value.strFullsize())
+            except (ValueError, TypeError):
+                raise EDXMLEventValidationError(
+                    'Invalid IP%s address in list: "%s"' %
+                    (split_data_type[1], '","'.join([repr(value) for value in values]))
+                )
         return normalized
 
     def _normalize_geo(self, values):
